@@ -587,7 +587,7 @@ class PRFAdapter(Fittable2DModel):
             dx = x
             setattr(self.psfmodel, self.xname, x_0)
 
-        if self.xname is None:
+        if self.yname is None:
             dy = y - y_0
         else:
             dy = y
@@ -597,7 +597,8 @@ class PRFAdapter(Fittable2DModel):
             return (flux * self._psf_scale_factor
                     * self._integrated_psfmodel(dx, dy))
 
-        setattr(self.psfmodel, self.yname, flux * self._psf_scale_factor)
+        setattr(self.psfmodel, self.fluxname,
+                flux * self._psf_scale_factor)
         return self._integrated_psfmodel(dx, dy)
 
     def _integrated_psfmodel(self, dx, dy):
@@ -606,7 +607,8 @@ class PRFAdapter(Fittable2DModel):
         out = np.empty_like(self.psfmodel(dx, dy))
         outravel = out.ravel()
         for i, (xi, yi) in enumerate(zip(dx.ravel(), dy.ravel(), strict=True)):
-            outravel[i] = dblquad(self.psfmodel,
+            # dblquad calls its integrand as func(y, x)
+            outravel[i] = dblquad(lambda y, x: self.psfmodel(x, y),
                                   xi - 0.5, xi + 0.5,
                                   lambda x: yi - 0.5, lambda x: yi + 0.5,
                                   **self._dblquadkwargs)[0]
